@@ -44,6 +44,7 @@ def stimuli():
     out.append(("tick", 100))
     out.append(("appdisc_eof",))
     out.append(("second_connect",))
+    out.append(("wrong_trid_fail",))
     # an integrity failure whose Logout cannot be written: the transport fails at that very drain()
     for cls in ("app", "hb"):
         for d in ("bad49", "no34", "low"):
@@ -203,6 +204,29 @@ def apply(w, mon, stim, rootname, role):
         w.run()
     elif kind == "tick":
         w.advance(stim[1])
+    elif kind == "wrong_trid_fail":
+        # a TestRequest is outstanding; the peer answers with a wrong TestReqID and its socket is gone: the Logout the
+        # library wants to send cannot be written
+        if w.reader is None or w.writer is None or b["state"] != "ACTIVE":
+            return "skip"
+        w.advance(31)  # HeartBtInt 30: the watchdog sends a TestRequest
+        if c.connection_state.name != "ACTIVE" or not any(b"\x0135=1\x01" in f for f in w.writer.out):
+            return "skip"
+        b = snap(w)
+        w.writer.fail(ConnectionResetError, lost=ConnectionResetError("reset by peer"))
+        w.reader.feed(refs.frame("0", num_in(c), w.T, w.S, [(112, "424242")]))
+        w.run()
+        if w.reader is not None and not w.reader.eof and w.reader.exc is None:
+            w.reader.set_exception(ConnectionResetError("reset by peer"))
+            w.run()
+        w.advance(2)
+        a = snap(w)
+        det = {"root": [role, rootname], "stimulus": stim, "before": b, "after": a}
+        if not a["dead"]:
+            return ("eof_not_disconnected", f"{b['state']}:wrong_testreqid+transport_failure", "a closed transport leaves the connection disconnected", det)
+        if a["ndisc"] - b["ndisc"] != 1:
+            return ("disconnect_not_reported_once", f"{b['state']}:wrong_testreqid+transport_failure", "reports the disconnect exactly once", det)
+        return None
     elif kind == "second_connect":
         # a second transport connection arrives at a single-connection acceptor while the first one is alive
         if role != "acceptor" or w.reader is None or w.writer is None or b["dead"]:
@@ -331,7 +355,7 @@ def apply(w, mon, stim, rootname, role):
         return None
     integrity = defect in ("no49", "no56", "bad49", "bad56", "swapped", "no34", "bad34", "dup34", "dup49")
     low = defect in ("low", "low_pd")
-    low_strict = defect == "low" and g not in ("seqreset",) and b["state"] != "RESENDREQ_AWAITING"
+    low_strict = defect == "low" and cls != "rs" and b["state"] != "RESENDREQ_AWAITING"  # reset mode ignores its own number
     if integrity or low:
         if delivered or logons:
             return V("integrity_defect_delivered", f"{dg}:{g}", "messages with wrong or missing CompIDs, a missing or too-low MsgSeqNum are never handed to the application")
